@@ -97,7 +97,6 @@ def explore(ctx):
 
 
 def search(ctx, broken):
-    ctx.tier = 'thorough'
     explore(ctx)
 
 
